@@ -391,7 +391,11 @@ mutual
         rcases evalS ρ N e st with ⟨_ | run, st'⟩
         · exact .panic
         · exact (Res.all_true _).bind fun _ _ _ => .done (by simp)
-    | .switch _ _ _, _, hf, _ => by simp [fragS] at hf
+    | .switch init tag cases, h, hf, st => by
+        simp only [supportedS] at h
+        simp only [fragS, Bool.and_eq_true] at hf
+        exact switch_all (fun o => o ≠ Flow.ncont) (by simp) ρ N susp init tag cases
+          (fun i st => (suppC_noCont ρ N susp _ cases h hf.2 i st).mono fun o ho _ => ho) st
     | .fallthrough, _, hf, _ => by simp [fragS] at hf
     | .ret, _, hf, _ => by simp [fragS] at hf
     | .unknown _, _, hf, _ => by simp [fragS] at hf
@@ -417,6 +421,23 @@ mutual
     | .elif s, h, hf, st => by
         simp only [supportedE] at h; simp only [fragE] at hf; simp only [denElse]
         exact suppS_noCont ρ N susp bb s h hf st
+  theorem suppC_noCont (ρ : Interp σ P) (N : Nat) (susp : Bool) (bb : Bool) :
+      ∀ (cs : Cases), supportedC true bb cs = true → fragC cs = true →
+        ∀ (i : Nat) st, Res.All (fun o => o ≠ Flow.ncont) (denFrom ρ N susp cs i st)
+    | .nil, _, _, _, st => .done (by simp)
+    | .cons _ _ body r, h, hf, 0, st => by
+        simp only [supportedC, Bool.and_eq_true] at h
+        simp only [fragC, Bool.and_eq_true] at hf
+        simp only [denFrom]
+        refine (suppL_noCont ρ N susp bb body h.1 hf.1 st).bind fun o st' ho => ?_
+        by_cases hn : o = .nft
+        · simp only [hn, if_true]; exact suppC_noCont ρ N susp bb r h.2 hf.2 0 st'
+        · simp only [hn, if_false]; exact .done ho
+    | .cons _ _ _ r, h, hf, i+1, st => by
+        simp only [supportedC, Bool.and_eq_true] at h
+        simp only [fragC, Bool.and_eq_true] at hf
+        simp only [denFrom]
+        exact suppC_noCont ρ N susp bb r h.2 hf.2 i st
 end
 
 theorem loopF_noY_intro (cond : σ → Except P Bool × σ) (post body : σ → Res Flow σ P)
